@@ -22,7 +22,7 @@ RULE = ("E1: complete small groups - 8 prime-order curves over primes <= 61 (a =
         "on a non-generator, ('ecdh', curve, i) both directions equal and equal OpenSSL pkeyutl -derive, incl. peers found by deterministic search whose shared x or own coordinates have leading zero bytes; ('ecdhseq', pair, ops) every operation sequence of length <= 4 (5) on ONE ECDH object over {set curve X/Y, load / assign private key X/Y, load / assign public key X/Y} followed by key agreement: a secret exactly when object curve, private and public key agree; ('invalid', curve, kind) off-curve, "
         "out-of-range, infinity and foreign-curve points must be rejected by every loader. Distinct = case tuples; group operations counted in 'measured'."
         ' Infinity operands include Jacobian encodings of infinity (y = 0 with several x / z) and their negations, under add / neg / double / mul / mul_add.'
-        " The negation of every representation is encoded and negated twice; the neutral element (singleton and results such as P + (-P), n*P) is negated; operands include representations with unreduced coordinates. ('invalid', curve, 'low-order-y0'): the order-2 point of SECP112r2 (cofactor 4) - its acceptance is a recorded finding.")
+        " The negation of every representation is encoded and negated twice; the neutral element (singleton and results such as P + (-P), n*P) is negated; operands include representations with unreduced coordinates. ('invalid', curve, 'low-order-y0' / 'order-2n'): the point of order two of SECP112r2 (cofactor 4) and a point T + kG outside the prime-order subgroup must be refused (a recorded finding until fix 2a550b5).")
 ASSUMPTIONS = [
     "textbook affine group law (vf/ref/ec.py) is the oracle for small groups; OpenSSL 3 CLI is the oracle for the 17 standard curves",
     "standard-curve parameters for the textbook reference are read from the library's curve objects; k*G is additionally compared with OpenSSL, "
@@ -563,7 +563,7 @@ def std_scalars(ctx, cur):
 # curves whose group order is NOT prime (cofactor > 1) have points of small order; (x, 0) has order 2 and the library reads y = 0 as
 # "infinity".  x-coordinates of such points (checked against the reference curve at run time)
 LOW_ORDER_X = {"SECP112r2": 0xB1FD8DE127D4656B573EB513984D}
-INVALID = ["same-point-foreign-curve-object", "low-order-y0", "x+p-small-x", "off-curve-y+1", "off-curve-x+1", "x>=p", "y>=p", "zero-zero", "other-curve", "infinity-encoding", "seed-garbage", "valid-control"]
+INVALID = ["same-point-foreign-curve-object", "low-order-y0", "order-2n", "x+p-small-x", "off-curve-y+1", "off-curve-x+1", "x>=p", "y>=p", "zero-zero", "other-curve", "infinity-encoding", "seed-garbage", "valid-control"]
 
 
 def invalid_case(ctx, o, cur, kind):
@@ -610,6 +610,17 @@ def invalid_case(ctx, o, cur, kind):
         x, y = oc.mul(9, oc.g)
         if cv.on_curve((x, y)):
             return Outcome("accidentally-on-curve", False)
+    elif kind == "order-2n":
+        # a point outside the prime-order subgroup that is neither (x, 0) nor infinity: T + kG, T the point of order two
+        if cur.name not in LOW_ORDER_X:
+            return Outcome("prime-order-curve", False)
+        T = (LOW_ORDER_X[cur.name], 0)
+        kG = cv.mul(5 + len(cur.name), cv.g)
+        lam = (kG[1] - T[1]) * pow(kG[0] - T[0], -1, p) % p
+        x = (lam * lam - T[0] - kG[0]) % p
+        y = (lam * (T[0] - x) - T[1]) % p
+        if not cv.on_curve((x, y)) or y == 0:
+            return Outcome("constant-wrong", False).viol("oracle|order-2n-construction", "%s: T + kG is not a point of the curve" % cur.name)
     elif kind == "low-order-y0":
         if cur.name not in LOW_ORDER_X:
             return Outcome("prime-order-curve", False)
